@@ -1,6 +1,6 @@
 import Unsized.MachineObserve
 import Unsized.PtrChainNotify
-import Unsized.PtrHonestM16
+import Unsized.PtrHonestS2
 /-!
 # C01 — Unsized values behave like their owned models under any operation history
 
@@ -226,6 +226,17 @@ theorem ptrs_fresh_step {s : Shape} {w : World} {v : Val} (inv : PInv s w v) (c 
     isPanic (pstep s w c).2 = false ∧ ∃ v', PInv s (pstep s w c).1 v' :=
   Ptr.ptrs_fresh_step inv c hok
 
+/-- **The address assumptions** of the pointer theorems, stated once (`Ptr.AddrOk base orig`): the account data
+does not sit in the first `orig + 10240` bytes of the address space, and `base + 2 * (orig + 10240) < 2^64`.
+They hold for every address of the runtime's input region and every legal account length. -/
+theorem addrOk_realistic (base orig : Nat) (h1 : 0x400000000 ≤ base) (h2 : base < 0x500000000)
+    (h3 : orig ≤ 10 * 1024 * 1024) : Ptr.AddrOk base orig :=
+  Ptr.addrOk_solana base orig h1 h2 h3
+
+/-- … e.g. the first account of a transaction (a few bytes above `MM_INPUT_START`), of the maximal length. -/
+example : Ptr.AddrOk (0x400000000 + 96) (10 * 1024 * 1024) :=
+  addrOk_realistic _ _ (by omega) (by omega) (by omega)
+
 open Unsized.PtrM Unsized.Ptr in
 /-- **`ptrs_fresh_history`** — from a fresh top accessor over a well-formed value (the state `mkBuf` builds),
 after ANY history of `enter` / `leave` / `reborrow` / ops whose side conditions hold (`HistOkP`: C01's `CmdOk` at
@@ -233,12 +244,77 @@ node level, and the op is `Covered`), no line panics and every live pointer obje
 theorem ptrs_fresh_history (s : Shape) (v : Val) (base : Nat) (B : PBuf) (cmds : List Cmd) (hok : s.ok = true)
     (hnd : ∀ d i, s ≠ .disc d i) (hwf : WF s v = true)
     (hsmall : (encode s v).length + maxIncrease < Shape.u32Lim)
-    (hfar : (encode s v).length + maxIncrease ≤ base)
-    (hbig : base + 2 * ((encode s v).length + maxIncrease) < Shape.usizeLim)
+    (haddr : AddrOk base (encode s v).length)
     (hhist : HistOkP s ⟨⟨⟨encode s v, (encode s v).length, 0, []⟩, base, treeOf s v base, [[]], false, false⟩, B⟩ cmds) :
     let w0 : World := ⟨⟨⟨encode s v, (encode s v).length, 0, []⟩, base, treeOf s v base, [[]], false, false⟩, B⟩
     (∀ a ∈ (prun s w0 cmds).2, isPanic a = false) ∧ ∃ v', PInv s (prun s w0 cmds).1 v' :=
-  Ptr.ptrs_fresh_history s cmds _ v (pinv_init s v base B hok hnd hwf hsmall hfar hbig) hhist
+  Ptr.ptrs_fresh_history s cmds _ v (pinv_init s v base B hok hnd hwf hsmall haddr.1 haddr.2) hhist
+
+open Unsized.PtrM Unsized.Ptr in
+/-- **`ptrs_fresh_history` for a program account** (`AccountDiscriminant<T>` at top level, `Shape.disc d inner`).
+The real wrapper has `Ptr = T::Ptr` and forwards `start_ptr` / `data_len` / `resize_notification` to `T`
+(`account_set/account.rs` 161–216), so its pointer object, for data at address `a`, IS the payload's at
+`a + |d|` (`Ptr.pinv_init_disc`): `get_ptr` of the wrapper on the canonical bytes returns the initial top pointer
+object of the payload machine, and from there every history keeps every live pointer object fresh. -/
+theorem ptrs_fresh_history_disc (d : List Nat) (inner : Shape) (v : Val) (a : Nat) (B : PBuf) (cmds : List Cmd)
+    (hok : (Shape.disc d inner).ok = true) (hwf : WF (.disc d inner) v = true)
+    (hsmall : (encode inner v).length + maxIncrease < Shape.u32Lim)
+    (haddr : AddrOk (a + d.length) (encode inner v).length)
+    (hhist : HistOkP inner ⟨⟨⟨encode inner v, (encode inner v).length, 0, []⟩, a + d.length,
+      treeOf inner v (a + d.length), [[]], false, false⟩, B⟩ cmds) :
+    let w0 : World := ⟨⟨⟨encode inner v, (encode inner v).length, 0, []⟩, a + d.length,
+      treeOf inner v (a + d.length), [[]], false, false⟩, B⟩
+    encode (.disc d inner) v = d ++ w0.a.mem.bytes
+    ∧ PtrT.getPtr (.disc d inner) (encode (.disc d inner) v) a = .ok (w0.a.root, size inner v + d.length)
+    ∧ (∀ x ∈ (prun inner w0 cmds).2, isPanic x = false) ∧ ∃ v', PInv inner (prun inner w0 cmds).1 v' := by
+  obtain ⟨h1, h2, _, h4⟩ := pinv_init_disc d inner v a B hok hwf hsmall haddr
+  exact ⟨h1, h2, Ptr.ptrs_fresh_history inner cmds _ v h4 hhist⟩
+
+open Unsized.PtrM Unsized.Ptr in
+/-- Non-vacuity: the depth-3 example behind an 8-byte discriminant, the account data at a realistic address. -/
+example : ∃ v', PInv exS (prun exS ⟨⟨⟨encode exS exV, (encode exS exV).length, 0, []⟩, 0x400000060 + 8,
+      treeOf exS exV (0x400000060 + 8), [[]], false, false⟩, default⟩ [.enter (.field 1), .enter (.elem 0)]).1 v' :=
+  (ptrs_fresh_history_disc [1, 2, 3, 4, 5, 6, 7, 8] exS exV 0x400000060 default
+    [.enter (.field 1), .enter (.elem 0)] (by decide) (by decide +kernel) (by decide +kernel)
+    (addrOk_realistic _ _ (by decide) (by decide) (by decide +kernel)) ⟨trivial, trivial, trivial⟩).2.2.2
+
+open Unsized.PtrM Unsized.Ptr in
+/-- A line with a composite op (`str_set`, `Set/Map::insert_all`) needs NO side condition: every exit is covered,
+including the registered findings (a refused / overflowing resize half-way through). -/
+theorem lineOk_composite (s : Shape) (w : World) (p : List Step) (o : Op) (h : simpleOp o = false) :
+    LineOk s w (.op p o) := by
+  intro v _ sh u2 _
+  refine ⟨?_, fun hs => by rw [h] at hs; cases hs⟩
+  intro kw e es k _ _ hk _
+  rcases hk with rfl | ⟨xs, rfl⟩ <;> simp [simpleOp] at h
+
+open Unsized.PtrM Unsized.Ptr in
+/-- The `Covered` half of `LineOk` is discharged once, at the top shape, by the decidable `Ptr.allStart s`
+(every `UnsizedMap` element shape occurring in `s` is `Ptr.startOk`: `PtrM.startAddr`, which looks two struct
+levels deep, is defined on its pointer objects). -/
+theorem covered_of_allStart (s : Shape) (v : Val) (p : List Step) (sh : Shape) (u2 : Val) (o : Op)
+    (ha : allStart s = true) (h : resolve s v p = .ok (sh, u2)) : Covered sh u2 o :=
+  Ptr.covered_of_allStart s v p sh u2 o ha h
+
+example : Ptr.allStart exS = true := by decide
+
+open Unsized.PtrM Unsized.Ptr in
+/-- Non-vacuity on a registered-finding exit: `UnsizedString<u8>::set` of 256 bytes over `"hi"` clears the
+string, then the push overflows the `u8` length prefix: the call returns `Err` leaving the EMPTY string (bytes
+`[0]`, three resize events walked by the pointer machine) — and the pointer objects are fresh for that partially
+updated value. -/
+example :
+    let w0 : World := ⟨⟨⟨encode (.str 1) (.bytes [104, 105]), (encode (.str 1) (.bytes [104, 105])).length, 0, []⟩,
+      1048576, treeOf (.str 1) (.bytes [104, 105]) 1048576, [[]], false, false⟩, default⟩
+    let r := pstep (.str 1) w0 (.op [] (.strSet (List.replicate 256 97)))
+    (match r.2 with | .res (.error _) evs => evs.length == 3 | _ => false) = true
+    ∧ r.1.a.mem.bytes = [0]
+    ∧ ∃ v', PInv (.str 1) r.1 v' := by
+  intro w0 r
+  refine ⟨by decide +kernel, by decide +kernel, ?_⟩
+  exact (Ptr.ptrs_fresh_step (pinv_init (.str 1) (.bytes [104, 105]) 1048576 default (by decide)
+    (by intro d i h; cases h) (by decide +kernel) (by decide +kernel) (by decide +kernel) (by decide +kernel))
+    _ (lineOk_composite _ _ _ _ rfl)).2
 
 open Unsized.PtrM Unsized.Ptr in
 /-- **`checkTop_passes`** — on honest histories `check_pointers` of the top pointer object with the allocation
